@@ -95,6 +95,14 @@ def gen_pipeline_case(rng, i, c03_bias=False, many_iters=False):
         mp.leaf_mean[b] = mp.leaf_mean[a].copy()
         mp.leaf_sum[b] = mp.leaf_mean[b] * mp.leaf_n[b]
         label.append('dup-centroid')
+    if len(leaves) > 2 and i % 4 == 2:
+        # 1-2 leaves of the taxonomy have NO cells in the reference: n_cells 0,
+        # sum 0 -> mean profile 0/max(1, 0) = all zeros (a constant row)
+        for leaf in rng.sample(leaves, rng.randint(1, min(2, len(leaves) - 2))):
+            mp.leaf_n[leaf] = 0
+            mp.leaf_sum[leaf] = mp.leaf_sum[leaf] * 0.0
+            mp.leaf_mean[leaf] = mp.leaf_mean[leaf] * 0.0
+        label.append('empty-leaf')
     X = np.array(mp.X, dtype=float)
     if normalization == 'log2CPM':
         qcol = {g: k for k, g in enumerate(mp.query_genes)}
@@ -103,7 +111,7 @@ def gen_pipeline_case(rng, i, c03_bias=False, many_iters=False):
                 leaf = rng.choice(leaves)
                 for k, g in enumerate(mp.ref_genes):
                     if g in qcol:
-                        X[r, qcol[g]] = mp.leaf_sum[leaf][k] / mp.leaf_n[leaf]
+                        X[r, qcol[g]] = mp.leaf_sum[leaf][k] / max(1, mp.leaf_n[leaf])
                 label.append('query=centroid')
     else:
         for r in range(X.shape[0]):
